@@ -72,7 +72,7 @@ def marker_line(k, bad): return "    %s(%d);\n" % ("undefinedproc" if bad else "
 
 def scenario(rng, nops, ndocs):
     """list of client operations with the model's expectation attached"""
-    docs = {}; ops = []; k = 0; rid = 0; uris = rng.sample(URIS, ndocs)
+    docs = {}; ops = []; k = 0; rid = 0; uris = rng.sample(URIS, ndocs); ver = {}
     if "file:///c20/a.spl" in uris and "untitled:///c20/a.spl" not in uris and rng.random() < .7: uris[-1] = "untitled:///c20/a.spl"
     npub = {}
     big = rng.random() < .3
@@ -90,7 +90,7 @@ def scenario(rng, nops, ndocs):
             if c < .7:
                 k += 1; text = BASE.replace("helper(t, 1);\n", "helper(t, 1);\n" + marker_line(k, False)) if rng.random() < .8 else "// doc %d\n" % k + BASE
                 if big and rng.random() < .5: text = filler + text
-                docs[u] = text; ops.append({"op": "open", "uri": u, "text": text, "k": k}); npub[u] = npub.get(u, 0) + 1
+                docs[u] = text; ops.append({"op": "open", "uri": u, "text": text, "k": k}); npub[u] = npub.get(u, 0) + 1; ver[u] = 0    # versions start again with every open
                 continue
             c = .99   # otherwise read the closed document
         if c < .45:
@@ -105,7 +105,7 @@ def scenario(rng, nops, ndocs):
             new = lspmodel.apply_change(cur, ch)
             if rng.random() < .2:
                 k += 1; ch2 = {"range": {"start": {"line": j, "character": 0}, "end": {"line": j, "character": 0}}, "text": marker_line(k, False)}; chs.append(ch2); new = lspmodel.apply_change(new, ch2)
-            docs[u] = new; ops.append({"op": "change", "uri": u, "changes": chs, "k": k}); npub[u] = npub.get(u, 0) + 1
+            ver[u] += 1; docs[u] = new; ops.append({"op": "change", "uri": u, "changes": chs, "k": k, "v": ver[u]}); npub[u] = npub.get(u, 0) + 1
         elif c < .5:
             docs[u] = None; ops.append({"op": "close", "uri": u})
         else:
@@ -138,7 +138,7 @@ def scenario(rng, nops, ndocs):
 
 def to_message(op):
     if op["op"] == "open": return {"jsonrpc": "2.0", "method": "textDocument/didOpen", "params": {"textDocument": {"uri": op["uri"], "languageId": "spl", "version": 0, "text": op["text"]}}}
-    if op["op"] == "change": return {"jsonrpc": "2.0", "method": "textDocument/didChange", "params": {"textDocument": {"uri": op["uri"], "version": op["k"]}, "contentChanges": op["changes"]}}
+    if op["op"] == "change": return {"jsonrpc": "2.0", "method": "textDocument/didChange", "params": {"textDocument": {"uri": op["uri"], "version": op.get("v", op["k"])}, "contentChanges": op["changes"]}}
     if op["op"] == "close": return {"jsonrpc": "2.0", "method": "textDocument/didClose", "params": {"textDocument": {"uri": op["uri"]}}}
     if op["kind"] == "text": return {"jsonrpc": "2.0", "id": op["id"], "method": "$/verif/text", "params": {"uri": op["uri"]}}
     if op["kind"] == "format": return {"jsonrpc": "2.0", "id": op["id"], "method": "textDocument/formatting", "params": {"textDocument": {"uri": op["uri"]}, "options": {"tabSize": 4, "insertSpaces": True}}}
@@ -209,6 +209,8 @@ def run_history(part, binpath, rng, nops, sc_seed):
             d.p.stdin.close(); rc = d.p.wait(20)
         except Exception:
             rc = None
+            try: d.p.kill(); d.p.wait(10)          # (did not terminate after exit: reading its stderr would block for ever)
+            except Exception: pass
         err = d.p.stderr.read().decode(errors="replace")
         if "ThreadSanitizer" in err or "AddressSanitizer" in err or rc == 66:
             part.fail("%s: sanitizer report: %s" % (what, err[err.find("WARNING"):][:600]), sc); return
